@@ -24,7 +24,7 @@ from vf.core import CaseResult, Ctx, Violation, hyp_run
 
 PROP_ID = 'C24'
 LEVEL = 'exploration'
-BUDGET = {'quick': 16000, 'thorough': 400000}
+BUDGET = {'quick': 16000, 'thorough': 240000}
 MANIFEST = {
     'engine': 'P',
     'technique': 'Hypothesis-generated Python expression ASTs (whitelisted '
@@ -39,14 +39,20 @@ RULE = (
     'List, Tuple, Set, Dict nodes, with a bias towards and/or/BinOp shells '
     'around deeper nodes (for the two module-level evaluators 1 case in 4 '
     'uses only node kinds that evaluator whitelists and 1 in 4 such a tree '
-    'with exactly one foreign node spliced in at a drawn leaf); rendered with ast.unparse (optionally padded with '
-    'whitespace/newlines); 1 case in 8 is instead a raw token soup that may '
+    'with exactly one foreign node spliced in at a drawn leaf); rendered '
+    'with ast.unparse (optionally padded with whitespace/newlines); 1 case in 8 is instead a raw token soup that may '
     'not parse. Names are canary variables (succeeded, failed, x, RESULT), '
     'unsupplied names, builtin names (len, open, __import__, eval, print, '
     'getattr) and names of the evaluator\'s own scope (expr, variables, '
     'visitor, whitelist, error_class, ast). Each case runs against one '
     'drawn target: CompletionEvaluator, RankingExpressionEvaluator, or a '
     'fresh restricted_evaluator with a drawn whitelist and error class. '
+    'Thorough tier only: additionally an Atheris (libFuzzer, coverage of '
+    'cylc.flow instrumented) campaign of 480,000 byte inputs decoded into '
+    '(target, truth values, whitelist, expression text) with the same '
+    'oracle, seeded with the expressions of the repo doctests; anything it '
+    'reports is re-checked through the plain replay path (counts in '
+    'atheris_runs / atheris_cases_checked). '
     'Non-trivial: the expression contains a non-whitelisted node below a '
     'whitelisted root (must be rejected untouched), or is fully whitelisted '
     'and touches a canary or an unsupplied name. Distinct by (target, '
@@ -617,10 +623,6 @@ def check_case(case, ctx: Ctx) -> CaseResult:
                       distinct_key=[tgt, case.get('wl'), src])
 
 
-def run_shard(ctx: Ctx):
-    hyp_run(ctx, cases(), check_case, ctx.share(BUDGET[ctx.tier]))
-
-
 # -- Atheris (thorough tier only): byte-level second driver, same oracle ------
 
 ATHERIS_RUNS = 480000      # total over all shards
@@ -664,7 +666,7 @@ def _atheris_child(argv):
     with atheris.instrument_imports(include=['cylc.flow'], enable_loader_override=False):
         import cylc.flow.util  # noqa
         import cylc.flow.task_outputs  # noqa
-        import cylc.flow.host_select  # noqa
+        import cylc.flow.host_select  # noqa: F401
     import os
     corpus = os.path.join(workdir, 'corpus')
     os.makedirs(corpus, exist_ok=True)
@@ -738,13 +740,10 @@ def run_atheris(ctx: Ctx):
                     ctx.col.add_violation(v, case)
 
 
-def _run_shard_full(ctx: Ctx):
+def run_shard(ctx: Ctx):
     hyp_run(ctx, cases(), check_case, ctx.share(BUDGET[ctx.tier]))
     if ctx.tier == 'thorough':
         run_atheris(ctx)
-
-
-run_shard = _run_shard_full
 
 if __name__ == '__main__':
     import sys as _sys
